@@ -219,7 +219,16 @@ OTHER_KINDS = ["TransformChain", "ThinPlateSplines", "PiecewiseAffine", "WithDim
 def src_tgt(rng, d, n=None):
     import menpo.shape as ms
     n = n or int(rng.integers(d + 2, 9))
-    return ms.PointCloud(general_position(rng, n, d)), ms.PointCloud(general_position(rng, n, d))
+    tp = general_position(rng, n, d)
+    r = rng.random()
+    if r < 0.15:
+        # the target is a shape in its own right (an outline, a mesh): more specific than the bare source
+        tgt = ms.PointUndirectedGraph(tp, adjacency(n, random_undirected_edges(rng, n), True))
+    elif r < 0.3 and d == 2:
+        tgt = ms.TriMesh(tp)
+    else:
+        tgt = ms.PointCloud(tp)
+    return ms.PointCloud(general_position(rng, n, d)), tgt
 
 
 def transform(rng, kind, d=2, n_align=None):
